@@ -151,13 +151,20 @@ func (s *Sched) Release(p int) bool {
 		break
 	}
 	close(pk.ch)
+	// wait until p is parked at a new gate or has finished.  The decision is taken on the scheduler's state, not on
+	// the arrival messages: a participant announces its arrival after it has registered as parked, so the message of
+	// its previous stop may still be on its way when the controller, which saw the registration, releases it again
 	deadline := time.After(s.Timeout)
 	for {
+		s.mu.Lock()
+		np, dn := s.parked[p], s.done[p]
+		s.mu.Unlock()
+		if (np != nil && np != pk) || dn {
+			return true
+		}
 		select {
-		case q := <-s.arrive:
-			if q == p {
-				return true
-			}
+		case <-s.arrive:
+		case <-time.After(2 * time.Millisecond):
 		case <-deadline:
 			return false
 		}
